@@ -1,5 +1,18 @@
 N = {"quick": 24, "thorough": 400}
 CORPUS = {"quick": 60, "thorough": 1000}
+import re
+
+
+def c02_key(shows):
+    """which kind of finding came with a confirmed schedule of the model"""
+    text = " ".join(shows)
+    if re.search(r"Panics \[[^\]]*\]\s*\(Some", text):
+        return "scheduler-panic-reachable"
+    if re.search(r"Stuck \[[^\]]*\] \[[^\]]*\] \[[^\]]*\]\s*\(Some", text):
+        return "unable-to-proceed"
+    return "unordered-conflicting-access"
+
+
 PROP = dict(
     id="C02",
     module="FV.C02.Props",
@@ -9,12 +22,10 @@ PROP = dict(
               "no_scheduler_panic_in_any_schedule", "valid_source_never_fails"],
     prelude="From Coq Require Import List NArith Bool.\nFrom FV.Base Require Import Harness.\nFrom FV.C02 Require Import Model Check Search.",
     found_in_show=lambda shows: any("Launch" in x for x in shows),
-    correspondence_key=lambda shows: "unordered-conflicting-access" if any("Unordered" in x for x in shows)
-                                     else "unable-to-proceed" if any("Stuck" in x for x in shows)
-                                     else "scheduler-panic-reachable" if any("Panics" in x for x in shows)
-                                     else "unordered-conflicting-access",
+    correspondence_key=lambda shows: c02_key(shows),
     harness_args=lambda tier, seed: ["--seed", str(seed), "--n", str(N[tier]), "--corpus", str(CORPUS[tier])],
     shard=6,
+    show_limit=6,
     rule="every source under resources/testdata that compiles (UFO, designspace, Glyphs 2/3) plus generated sources "
          "(composites, mixed glyphs, non-export components, shuffled glyph order, missing .notdef, kerning at two "
          "masters, features skipped); one case = one compile with hooks on: the recorded job graph, event history and "
